@@ -8,41 +8,59 @@ from vlib import core
 TRUST = ("Lean 4.33 kernel; axioms at most propext/Classical.choice/Quot.sound (audited per run); "
          "hand-written model tied to the C++ by the correspondence harness (differential, generator-bounded); ")
 MANIFEST = dict(
-  text=("Theorems (Props/C19.lean) about an executable model of the importers and exporters. FROM BYTES, for every byte sequence and every "
-        "configuration: the models of importSparseData (line splitting, PEG model of the record grammar, index-order check, dimension / "
-        "zero-base / label logic, dense or sparse, classification or regression, any highestIndex and batch size) and of the three "
-        "csvStringToData families (PEG model of the seven phrase_parse grammars, then row/label/batch logic; any separator, comment "
-        "character, label position, number of outputs, maximum batch size incl. 0 = unlimited) return the library's exception, bad_alloc "
-        "(dense LibSVM vectors beyond the allocation limit) or a well-formed dataset — equal dimensions = shape, sparse indices increasing "
-        "and in range, labels below numberOfClasses, one element per record, batches adding up and bounded — and never write out of bounds "
-        "(import_bytes_wellformed_or_error_svm, import_bytes_wellformed_or_error_csv, on top of import_wellformed_or_error*, "
-        "sparse_writes_in_bounds; file overloads = string overloads on a suffix: dropTitleLines_suffix). No theorem is `_partial` any more: "
-        "the sortedness hypothesis belonged to the pre-fix LibSVM logic, kept as history (legacy_writes_in_bounds_of_sorted + decide-checked "
-        "witnesses). The PEG model never loops without consuming input (parser_total). Round trip at token level for all datasets: "
-        "csv_roundtrip (class 0 present, else the importer's documented shift: csv_roundtrip_shift_witness), csv_roundtrip_regression, "
-        "libsvm_roundtrip. "
-        "The model — PEG-with-skipper interpreter, spirit 1.83's numeric lexers with every rounding of real_impl/scale (uint64 accumulator, "
-        "pow10 table, compensate_roundoff, exponent limits), exact IEEE rounding, the post-parse logic, and the exporters as BYTE printers "
-        "with the number formatting they rely on (%.10e / %.10g / %.6g by exact decimal conversion, setw padding, inf/nan, -1/+1 and +1 "
-        "label mappings, sortLabels, append) — is tied to the real code by exact line-by-line correspondence under ASan/UBSan with an "
-        "allocation limit and a 20 s watchdog per op, in both tiers: all 16 importSparseData overloads (stream and file), csvStringToData "
-        "and importCSV (string and file, titleLines) for Data<RealVector/FloatVector/int/unsigned/float/double> and both labelled families, "
-        "exportCSV (unlabelled, class and vector labels; scientific on/off; field width) and exportSparseData (dense/sparse, float/double, "
-        "oneMinusOne, sortLabels, append): the written file is compared byte for byte, then imported again and compared value for value; "
-        "an independent oracle in the harness judges the round trip (values equal up to the printed precision, floats exactly, labels up "
-        "to the importer's shift) and the well-formedness clauses. Streams: grammar-directed files, byte mutations, a hostile generator "
-        "(huge / duplicate / descending / zero indices, odd labels, CR/LF mixes, trailing separators, NULs, long lines, numbers at the edge "
-        "of double/unsigned/int range, comments) — class histograms, outcomes and the library check that fired are in the evidence."),
+  text=("Theorems (Props/C19.lean, 45) about an executable model of the importers and exporters. FIRST SENTENCE, FROM BYTES, for every "
+        "byte sequence and every configuration: the models of importSparseData (line splitting, PEG model of the record grammar, "
+        "index-order check, dimension / zero-base / label logic, dense or sparse, classification or regression, any highestIndex and "
+        "batch size) and of the three csvStringToData families (PEG model of the seven phrase_parse grammars, then row/label/batch "
+        "logic; any separator, comment character, label position, number of outputs, maximum batch size incl. 0 = unlimited) return the "
+        "library's exception, bad_alloc (dense LibSVM vectors beyond the allocation limit) or a well-formed dataset — equal dimensions = "
+        "shape, sparse indices increasing and in range, labels below numberOfClasses, one element per record, batches adding up and "
+        "bounded — and never write out of bounds (import_bytes_wellformed_or_error_svm, import_bytes_wellformed_or_error_csv, "
+        "sparse_writes_in_bounds; file overloads = string overloads on a suffix: dropTitleLines_suffix); the same for the grammar TEXT "
+        "of Csv.cpp since the repair of F-C19-11 (cleanNumber<T>() = &p >> p in place of every double_/auto_): "
+        "csv_grammars_as_written (parse_cleanReal: identical result, rest and events on every input), "
+        "import_bytes_wellformed_or_error_csv_as_written. NEVER HANG: parser_total (no `*`/`+`/`%` loop of the eight grammars iterates "
+        "without consuming) and last_column_loop_terminates (the hand-written do/while around phrase_parse in "
+        "import_csv_reader_points(LAST_COLUMN): every successful call consumes, so no call is repeated at the same position and "
+        "length+1 iterations suffice). SECOND SENTENCE: token level for all datasets — csv_roundtrip (class 0 present, else the importer's "
+        "documented shift: csv_roundtrip_shift_witness), csv_roundtrip_regression, libsvm_roundtrip (dense), libsvm_roundtrip_sparse, "
+        "libsvm_roundtrip_class (label mappings label+1 and -1/+1 with oneMinusOne, sparse or dense entries); BYTE level — "
+        "printed_number_charset (every printed number, label and index consists of digits, sign, '.', 'e' and the letters of inf/nan "
+        "only, plus setw blanks in a CSV cell: a separator outside these never occurs inside a cell — the separator hypothesis as a "
+        "checked fact), label_index_bytes_roundtrip (int_/uint_ read printed labels/indices back exactly), value_bytes_roundtrip_sci "
+        "and value_bytes_roundtrip_general (for EVERY binary64 value, %.<p>e and all three layouts of %.<p>g: double_ consumes exactly "
+        "the token and returns spirit's conversion of the value rounded to the printed number of significant digits), "
+        "printed_decimal_is_nearest (that decimal has at most p+1 digits and is within half a unit in the last printed place: 'equals "
+        "the original up to the printed precision' — precision 10 is NOT bit-exact, witness in the file), real_intDigits / roundBin_nat "
+        "(integer tokens below 2^53 are converted exactly), and END TO END for exportSparseData -> importSparseData: "
+        "libsvm_export_import_bytes_all — for every dataset of binary64 values (regression labels, or class labels with oneMinusOne "
+        "on/off, sortLabels off), sparse or dense, any batch size: importing the exported BYTES succeeds (no printed double is "
+        "rejected: readBack_fmtG_some, no carry into 1e+309) and yields the same structure, indices, shape, batches and class labels "
+        "with every value = spirit's reading of its 6-digit rounding. "
+        "The model — PEG-with-skipper interpreter, spirit 1.83's numeric lexers with every rounding of real_impl/scale, exact IEEE "
+        "rounding, the post-parse logic, the exporters as BYTE printers (%.10e / %.10g / %.6g by exact decimal conversion, setw, inf/nan, "
+        "label mappings, sortLabels, append) — is tied to the real code by exact line-by-line correspondence under ASan/UBSan + "
+        "-fsanitize=float-cast-overflow with an allocation limit and a 20 s watchdog per op, in both tiers: all 16 importSparseData "
+        "overloads (stream and file), csvStringToData and importCSV (string and file, titleLines) for Data<RealVector/FloatVector/int/"
+        "unsigned/float/double> and both labelled families, exportCSV and exportSparseData (all options): the written file is compared "
+        "byte for byte, then imported again and compared value for value; an independent oracle in the harness judges round trip and "
+        "well-formedness. Streams: grammar-directed files, byte mutations, a hostile generator (13+3 classes), one import in eight into a "
+        "dataset object that already holds data, maximumBatchSize 0 in every family — histograms in the evidence."),
   note=TRUST + "boost::spirit's and iostream's own code is runtime evidence only (sanitizers + watchdog + exact comparison with the model over the "
-       "generated files); 'never hangs' is a theorem about the PEG model (parser_total), for the real parsers it is the watchdog; "
-       "numeric values are compared for tokens whose digits fit spirit's uint64 accumulator (<= 17 digits, any exponent); longer tokens and, "
-       "for the float scalar reader, anything but plain integers of <= 7 digits run for memory safety + oracle only; "
-       "the number formatting model (fmtE/fmtG) and the byte-level round trip parse(print d) are tied by exact correspondence, not proved — the "
-       "round-trip theorems are at token level with the separator outside the characters of a number as an explicit assumption; "
-       "libsvm_roundtrip is proved for regression labels and dense export (class label mappings and sparse inputs: correspondence + oracle); "
-       "sortLabels only for <= 13 elements (std::sort is unstable beyond 16). Open findings probed on every run: F10 (maximumBatchSize 0 divides "
-       "by zero), F11 (spirit leaves the iterator behind a number with out-of-range exponent: read as missing value / dropped), F12 (export_libsvm "
-       "cannot be instantiated); the model has the repaired behaviour, the generated stream avoids the triggers while the probes fail.",
+       "generated files); 'never hangs' is a theorem about the PEG model and the modelled record loop, for the real parsers it is the watchdog; "
+       "numeric values are compared for tokens whose digits fit spirit's uint64 accumulator (<= 17 digits, any exponent); longer tokens "
+       "(spirit's excess-digit path, not modelled) and, for the float scalar reader, anything but plain integers of <= 7 digits run for "
+       "memory safety + oracle only; the formatting model fmtE/fmtG itself (= what iostream prints) is tied by exact correspondence, not "
+       "proved; what IS proved is that the lexer model reads the printer model's bytes back as stated. Byte-level END-TO-END is proved for "
+       "exportSparseData/importSparseData; for exportCSV/csvStringToData the composition of the per-token byte-level theorems through the "
+       "PEG row/record grammars is correspondence + oracle (ops rt, xcsv), the theorems being token level + per token + character set. "
+       "'Reproduces the data' therefore means: structure, labels, indices exactly; each value as the correctly rounded decimal with 11 "
+       "(CSV) / 6 (LibSVM) significant digits read by spirit (two roundings for |exponent| > 22) — exact for integers and short decimals, "
+       "not bit-exact in general; separators that are characters of a number (digits - + . e, and E after a plain %g number) are "
+       "outside the claim. sortLabels only in the correspondence, for <= 13 elements (std::sort is unstable beyond 16). "
+       "Open finding F-C19-13 (libsvm classification label converted to int before the range check: UB for NaN/inf/out-of-int-range "
+       "labels, caught by -fsanitize=float-cast-overflow) is probed on every run; while the probe fails such files run one by one in "
+       "their own group. F10/F11/F12 are repaired in /repo; their probes stay as regression tests.",
   technique="Lean 4 proof about an executable importer/exporter model + differential correspondence with the C++ (ASan/UBSan)",
   design="§6 C19, §14 C19")
 
@@ -649,7 +667,8 @@ def run(ctx):
                         "longer tokens run for memory safety and the oracle only",
                         "a single allocation above 1 MiB inside an importer is answered by std::bad_alloc (harness operator new)",
                         "exportSparseData(sortLabels=true) uses std::sort, which is not stable: exercised for at most 13 elements, where libstdc++ sorts by insertion",
-                        "round trip: separator outside the characters of a printed number (0-9 . e + - i n f a), the blank characters and the comment character"]
+                        "round trip: separator outside the characters of a printed number (0-9 . e + - i n f a: proved to be all of them, "
+                        "printed_number_charset), E, the blank characters and the comment character"]
     ctx.prove(["SharkVerif.Props.C19"])
     if not ctx.quick:
         ctx.leanchecker(["SharkVerif.Props.C19"])
